@@ -249,6 +249,13 @@ func offsetLengthToStartEnd(offset, length uint64) (uint64, uint64, nfsv4.Nfssta
 		return 0, 0, nfsv4.NFS4ERR_INVAL
 	case math.MaxUint64:
 		// A length of all ones indicates end-of-file.
+		if offset == math.MaxUint64 {
+			// The range consists of the very last byte, which
+			// cannot be expressed using an exclusive end
+			// offset. Converting it would yield an empty
+			// range that does not conflict with anything.
+			return 0, 0, nfsv4.NFS4ERR_BAD_RANGE
+		}
 		return offset, math.MaxUint64, nfsv4.NFS4_OK
 	default:
 		if length > math.MaxUint64-offset {
